@@ -20,6 +20,26 @@ class Report:
         self.t0 = time.time()
         self.table_rows = 0
         self.states = 0
+        self.undecided = []      # rules that met a shape the engines cannot decide on this tree (no verdict, no alarm)
+
+    def attempt(self, fn, *a, **k):
+        """Run one rule.  A shape the engines cannot decide (WalkLimit) leaves *that rule* undecided — reported, not alarmed,
+        and the other rules of the property still run; a missing anchor fails closed for that rule only."""
+        from .kwalk import WalkLimit
+        from .facts import AnchorMissing
+        before = set(self.rules)
+        try:
+            return fn(*a, **k)
+        except WalkLimit as e:
+            rids = sorted(set(self.rules) - before) or [getattr(fn, "__name__", "rule")]
+            self.undecided.append({"rules": rids, "function": "%s.%s" % (getattr(fn, "__module__", "?"), getattr(fn, "__name__", "?")),
+                                   "why": str(e)})
+            return None
+        except AnchorMissing as e:
+            self.rule("anchor", "the semantic anchors the rules are written against exist")
+            self.violation("anchor", "anchor-missing|%s" % e, "anchor missing: %s — the rule cannot be applied to this tree "
+                           "(fail closed)" % e)
+            return None
 
     def rule(self, rid, clause):
         self.rules.setdefault(rid, {"clause": clause, "obligations": 0, "discharged": 0, "sites": 0,
@@ -90,6 +110,9 @@ def finish(rep, explanation, level="other", seed=0, facts_meta=None, write_evide
             new.append(v)
     replay_dir = os.path.join(VERIF, "evidence", "replay") if write_evidence else "/tmp/rsj-selftest-replay"
     os.makedirs(replay_dir, exist_ok=True)
+    for u in rep.undecided:
+        print("UNDECIDED: property=%s rules=%s %s (the code has a shape the engines cannot decide; no verdict for these rules on "
+              "this tree)" % (rep.prop, ",".join(u["rules"]), u["why"]))
     for v, k in hit_known:
         print("KNOWN-FINDING: property=%s %s [%s] %s" % (rep.prop, k["what"], v["key"], v.get("loc") or ""))
     for v in new:
@@ -134,6 +157,7 @@ def finish(rep, explanation, level="other", seed=0, facts_meta=None, write_evide
             "new_violations": [v["key"] for v in new],
             "facts": facts_meta or {},
             "notes": rep.notes,
+            "undecided": rep.undecided,
             "thorough": getattr(rep, "thorough", None),
             "exhaustive": False,
         },
